@@ -51,6 +51,7 @@ theorem woken_entry {cfg : Config} {s s' : State} {e : Event} (ha : InvA s) (h :
     · exact we_one (r0 := (s.thr t).r) (fun q hq => by simp [hq]) (by simp) r hw
     · exact we_same rfl r hw
     · exact we_same rfl r hw
+    · exact we_same rfl r hw
     · dsimp only at hw ⊢
       by_cases hq : (if (s.thr t).bcast = true then s.queue else sigSelect s.recs s.queue).contains r = true
       · simp only [hq, if_true] at hw; cases hw
@@ -66,6 +67,7 @@ theorem woken_entry {cfg : Config} {s s' : State} {e : Event} (ha : InvA s) (h :
     refine we_one (r0 := (s.thr t).r) (fun q hq => by simp [hq]) ?_ r hw
     simp; cases (s.recs (s.thr t).r).stat <;> simp
   | relDeqW t new obs n hl hh hnew hn hsp => exact we_same rfl r hw
+  | relDbg t new obs n hl hh hnew hn hsp => exact we_same rfl r hw
   | wHeadExit t r0 y hy hl hr hw' =>
     exact we_one (r0 := r0) (fun q hq => by simp [hq]) (by simp) r hw
   | wCmpEq t r0 obs hl hr ho he =>
